@@ -352,6 +352,7 @@ func c18(c *Ctx) {
 	c18Gate(c)
 	// ---- C18.6 stale sessions ---------------------------------------------------------------------------------------
 	c18Sessions(c)
+	c18TxDatabase(c)
 	// ---- C18.4 SQL statements: readOnly() agrees with effects ------------------------------------------------------
 	c18SQLReadOnly(c)
 }
@@ -635,6 +636,52 @@ func c18Sessions(c *Ctx) {
 			}
 		}
 		c.ruleErrChecked(r, f, "saveUser", callTo(srvT+"saveUser"), 1)
+	}
+}
+
+// c18TxDatabase: statements sent to a session transaction are authorised against the database the session is
+// using (multidbHandler.GetLoggedUser -> getDBFromCtx) but run on the database the transaction was opened on:
+// every use of a session transaction by a handler is preceded by the check that the two are the same database.
+func c18TxDatabase(c *Ctx) {
+	r := "C18.7/tx-database-pinned"
+	use := callTo("(pkg/server/sessions/internal/transactions.Transaction).SQLExec", "(pkg/server/sessions/internal/transactions.Transaction).SQLQuery")
+	chk := callTo(srvT + "checkTxDatabase")
+	n := 0
+	for _, f := range c.allFns {
+		if !fnInPkgs(f, []string{"pkg/server"}) || len(sites(f, use)) == 0 {
+			continue
+		}
+		for i, in := range sites(f, use) {
+			n++
+			q := &pathQ{fn: f, fromEntry: true, to: func(x ssa.Instruction) bool { return x == in }, via: chk}
+			w := q.bypass()
+			c.check(w == nil, r, fmt.Sprintf("%s:tx-use#%d", fnName(f), i), c.pos(in.Pos()), "the statement is sent to the transaction only after checkTxDatabase",
+				"a statement reaches a session transaction without the check that the session is still using the transaction's database (permission is evaluated on the session's database): "+c.witnessStr(w))
+		}
+		c.ruleErrChecked(r, f, "checkTxDatabase", chk, 1)
+	}
+	if n < 2 {
+		c.undecided(r, "floor", fmt.Sprintf("%d uses of a session transaction by handlers found (TxSQLExec, TxSQLQuery confirmed by hand)", n))
+	}
+	if f := c.mustFn(r, srvT+"checkTxDatabase"); f != nil {
+		same := whenCond(true, func(a string) bool { return strings.Count(a, "GetName") == 2 && strings.Contains(a, " == ") })
+		q := &pathQ{fn: f, fromEntry: true, to: successReturn, barrier: same}
+		w := q.bypass()
+		c.check(w == nil, r, fnName(f)+":names-equal", c.pos(f.Pos()), "success only on the edge where the session's database name equals the transaction's", "checkTxDatabase can succeed without comparing the two database names: "+c.witnessStr(w))
+	}
+	// the only other way to a transaction's database is through the transaction itself; NewTransaction binds the session's database
+	if f := c.fn("pkg/server/sessions.(*Session).NewTransaction"); f != nil {
+		okb := false
+		for _, in := range sites(f, callTo("pkg/server/sessions/internal/transactions.NewTransaction")) {
+			for _, a := range callOf(in).Args {
+				if hasFieldSuffix(desc(a), "database") {
+					okb = true
+				}
+			}
+		}
+		c.check(okb, r, fnName(f)+":binds-session-database", c.pos(f.Pos()), "the transaction is created on the session's current database", "Session.NewTransaction no longer passes the session's database")
+	} else {
+		c.undecided(r, "Session.NewTransaction", "does not resolve")
 	}
 }
 
